@@ -82,6 +82,30 @@ def collect_sites(orig_ir, repo_prefix="glass-easel-template-compiler/src/", fil
                             skip = True
                         if cur.get("k") in ("fn", "closure", "local"):
                             break
+                    # `let key = format!(..);` whose every use is `gen_lit_str(&key)`: the text is escaped as a whole afterwards
+                    par = pm.get(id(n))
+                    hops = 0
+                    while par is not None and par.get("k") in ("ref", "paren", "call", "block", "expr") and hops < 4 and par.get("k") != "local":
+                        if par.get("k") == "call" and not (sir.call_path(par) or "").endswith(("must_use", "fmt::format")):
+                            break
+                        par = pm.get(id(par))
+                        hops += 1
+                    if par is not None and par.get("k") == "local" and par["pat"].get("k") == "p_ident":
+                        nm = par["pat"]["name"]
+                        uses = [x for x in sir.walk(fn["body"], into_items=True) if x.get("k") == "path" and x.get("segs") == [nm]]
+                        def escaped_use(u):
+                            c = u
+                            for _ in range(3):
+                                c = pm.get(id(c))
+                                if c is None:
+                                    return False
+                                if c.get("k") == "call" and sir.call_name(c) == "gen_lit_str":
+                                    return True
+                                if c.get("k") not in ("ref", "paren", "mcall"):
+                                    return False
+                            return False
+                        if uses and all(escaped_use(u) for u in uses):
+                            skip = True
                     if skip:
                         continue
                     target = n["args"][0] if n["name"] in ("write", "writeln") else None
